@@ -181,26 +181,7 @@ def run_batch(run, cases, tag, workers=16):
         json.dump({"tab": tab, "progs": [{k: v for k, v in c.items() if k not in ("text", "errors")} for c in cases]}, f)
     res = run_tlc("MC_Store", "MC_Store.cfg", run, env={"STORE_DATA": path}, workers=workers, timeout=3000, tag=tag)
     os.unlink(path)
-    found = []
-    for m in re.finditer(r'<<"(R|P|D)-', res.out):
-        j = m.start()
-        depth, k = 0, j
-        out = res.out
-        while k < len(out):
-            if out.startswith("<<", k):
-                depth += 1
-                k += 2
-                continue
-            if out.startswith(">>", k):
-                depth -= 1
-                k += 2
-                if depth == 0:
-                    break
-                continue
-            k += 1
-        try:
-            v = parse_value(out[j:k])
-            found.append(v)
-        except Exception:
-            pass
+    from .tlc import extract_tuples
+
+    found = extract_tuples(res.out, "R-|P-|D-")
     return res, found
